@@ -89,6 +89,8 @@ impl UnixMetricSink {
 
 impl MetricSink for UnixMetricSink {
     fn emit(&self, metric: &str) -> io::Result<usize> {
+        #[cfg(cadence_verif)]
+        crate::verif::point("sock.send", self as *const Self as usize, metric.len() as u64, 0);
         self.stats.update(
             self.socket.send_to(metric.as_bytes(), self.path.as_path()),
             metric.len(),
@@ -123,6 +125,8 @@ impl UnixWriteAdapter {
 
 impl Write for UnixWriteAdapter {
     fn write(&mut self, buf: &[u8]) -> io::Result<usize> {
+        #[cfg(cadence_verif)]
+        crate::verif::point("sock.write", self as *const Self as usize, buf.len() as u64, 0);
         self.stats.update(self.socket.send_to(buf, &self.path), buf.len())
     }
 
